@@ -100,6 +100,9 @@ def harnesses(tier):
                 hs.append({"id": "order/seq%d/by%d/style%d/decl%d" % (ws, by, style, decl),
                            "params": {"kind": "order", "with_seq": ws, "by_chrom": by, "style": style, "decl": decl, "full": tier == "thorough"},
                            "timeout": 1500, "twin": (ws, by, style, decl) == (0, 0, 0, 0)})
+    for by in (0, 1):
+        for ws in (0, 1):
+            hs.append({"id": "long/seq%d/by%d" % (ws, by), "params": {"kind": "long", "with_seq": ws, "by_chrom": by}, "timeout": 900})
     for style in (0, 1, 2):
         for decl in ((0, 3) if tier == "quick" else (0, 1, 2, 3)):
             hs.append({"id": "roundtrip/style%d/decl%d" % (style, decl), "params": {"kind": "roundtrip", "style": style, "decl": decl, "full": tier == "thorough"},
@@ -107,7 +110,7 @@ def harnesses(tier):
     return hs
 
 
-def compare(inp, out, with_seq, need_bo):
+def compare(inp, out, with_seq, need_bo, sl_order=True):
     si, li, ki = F.parse_gfa(inp)
     so, lo, ko = F.parse_gfa(out)
     if any(k.endswith("#dup") for k in so):
@@ -151,9 +154,20 @@ def compare(inp, out, with_seq, need_bo):
         to = sorted(set(t for ov, tg in co[key] for t in tg))
         if ti != to:
             return "tags of link %r: %r, input %r" % (key, to, ti)
-    sl = [k for k in ko if k in ("S", "L")]
-    if "S" in sl[sl.index("L"):] if "L" in sl else False:
-        return "an S line follows an L line"
+    if sl_order:
+        r = s_before_l(out)
+        if r:
+            return r
+    return None
+
+
+def s_before_l(out):
+    seen_l = False
+    for l in out:
+        if l.startswith("L"):
+            seen_l = True
+        elif l.startswith("S") and seen_l:
+            return "an S line follows an L line"
     return None
 
 
@@ -187,7 +201,45 @@ def check_csv(csv, out):
     return None
 
 
+def long_lines(variant, ws):
+    """two chromosomes, 17+ chain elements in total, so BO values cross the one/two digit boundary"""
+    spec = F.Spec()
+    F.build_chain(spec, "chr1", ["snp", "ins", "del"], tip_start=True, tip_end=True, naming=0)
+    F.build_chain(spec, "chr2", ["inv", "two", "tri", "snp"], tip_start=True, tip_end=False, naming=1)
+    so = {}
+    for c in ("chr1", "chr2"):
+        so.update(F.so_layout(spec, c, [3 + (i % 4) for i in range(F.n_refs(spec, c))], 0))
+    ids, links = F.orderings(spec, variant)
+    return F.gfa_text(spec, so, ids, links, with_seq=True)
+
+
 def build(params):
+    if params["kind"] == "long":
+        def case_long(variant, order):
+            O = F.M["O"]
+            e = stubs.env()
+            v = pick(variant, [0, 1, 2, 3])
+            req = pick(order, ["chr1,chr2", "chr2,chr1"])
+            ws, by = bool(params["with_seq"]), bool(params["by_chrom"])
+            lines = long_lines(v, ws)
+            e.files["in.gfa"] = stubs.MFile("text", lines, None)
+            O.run_order_gfa("in.gfa", "out", by, chromosome_order=req, with_sequence=ws)
+            names = ["out/in-chr1.gfa", "out/in-chr2.gfa"] if by else ["out/in-complete.gfa"]
+            got = []
+            for nm in names:
+                if nm not in e.files:
+                    return "missing output %s" % nm
+                out = [str(l) for l in e.files[nm].lines]
+                r = bo_sorted(out) or s_before_l(out)
+                if r:
+                    return "%s: %s" % (nm, r)
+                r = check_csv([str(l) for l in e.files[nm[:-4] + ".csv"].lines], out)
+                if r:
+                    return "%s: %s" % (nm, r)
+                got += out
+            return compare(lines, got, ws, True, sl_order=False)
+
+        return Harness([("variant", "int"), ("order", "int")], ["0 <= variant <= 3 and 0 <= order <= 1"], case_long, fuel=3000)
     style = params["style"]
     decl = params["decl"]
     if params.get("full"):
@@ -242,6 +294,29 @@ def replay(params, model, wd):
     import gaftools.gfa as G
     import gaftools.cli.order_gfa as O
 
+    if params["kind"] == "long":
+        v, oi = model["args"]
+        ws, by = bool(params["with_seq"]), bool(params["by_chrom"])
+        lines = long_lines(v, ws)
+        p = os.path.join(wd, "in.gfa")
+        open(p, "w").write("".join(lines))
+        od = os.path.join(wd, "out")
+        try:
+            O.run_order_gfa(p, od, by, chromosome_order=["chr1,chr2", "chr2,chr1"][oi], with_sequence=ws)
+            names = ["in-chr1.gfa", "in-chr2.gfa"] if by else ["in-complete.gfa"]
+            got = []
+            r = None
+            for nm in names:
+                out = open(os.path.join(od, nm)).read().splitlines(True)
+                r = r or bo_sorted(out) or s_before_l(out) or check_csv(open(os.path.join(od, nm[:-4] + ".csv")).read().splitlines(True), out)
+                got += out
+            r = r or compare(lines, got, ws, True, sl_order=False)
+        except BaseException as e:  # noqa
+            return {"reproduced": True, "key": "C07:long:exception:%s" % type(e).__name__, "what": repr(e)}
+        if r:
+            kind = "order" if "order" in r else "csv" if "CSV" in r else "content"
+            return {"reproduced": True, "key": "C07:long:%s" % kind, "what": r}
+        return {"reproduced": False, "detail": "long chain output preserved and ordered"}
     decl = params["decl"]
     if params.get("full"):
         selfl, ltag, stag, ov, other = model["args"]
